@@ -21,6 +21,11 @@ func CreateTableDepthMap(tableMap map[string]*sysl.Type) map[int][]string {
 	}
 	processTableDepth(tableMap, completedTableDepthMap, completeTableDepthMap, incompleteTableDepthMap,
 		visitedTableAttrDepth)
+	// Tables that are left refer to themselves, to each other or to a missing table: they come last.
+	last := len(completedTableDepthMap)
+	for tableName := range incompleteTableDepthMap {
+		completedTableDepthMap[last] = append(completedTableDepthMap[last], tableName)
+	}
 	return completedTableDepthMap
 }
 
@@ -31,6 +36,7 @@ func processTableDepth(
 	incompleteTableDepthMap map[string]int,
 	visitedTableAttrs map[string]string,
 ) {
+	before := len(incompleteTableDepthMap)
 	for tableName := range incompleteTableDepthMap {
 		processComplete, size, tempVisitedAttrs := findTableDepth(tableName, tableMap[tableName],
 			visitedTableAttrs, completeTableDepthMap)
@@ -48,7 +54,7 @@ func processTableDepth(
 			}
 		}
 	}
-	if len(incompleteTableDepthMap) != 0 {
+	if n := len(incompleteTableDepthMap); n != 0 && n < before {
 		processTableDepth(tableMap, completedTableDepthMap, completeTableDepthMap, incompleteTableDepthMap,
 			visitedTableAttrs)
 	}
